@@ -1,0 +1,131 @@
+//! Verification hooks. Compiled only under `--cfg excsn_fibre_verif`.
+//!
+//! A *controller* (installed per thread by an external harness) is told about
+//! every shared-memory step, spin, park and unpark that goes through
+//! `internal::sync`, so that it can serialise the instrumented threads and
+//! choose the interleaving. Threads without a controller pay one thread-local
+//! load per hook and otherwise behave exactly like the normal build.
+
+use std::cell::RefCell;
+use std::panic::Location;
+use std::sync::atomic::{AtomicU64, Ordering};
+use std::sync::{Arc, RwLock};
+use std::thread::ThreadId;
+use std::time::Duration;
+
+/// Implemented by the harness. All methods are called on the thread that
+/// performs the step, *before* the step itself.
+pub trait Controller: Send + Sync + 'static {
+  /// A shared-memory step (atomic op, lock acquisition) is about to happen.
+  fn point(&self, kind: &'static str, loc: &'static Location<'static>, addr: usize);
+  /// Log-only record (safe inside critical sections).
+  fn event(&self, site: &'static str, a: u64, b: u64);
+  /// The thread is waiting for another thread's progress without parking.
+  fn spin(&self, loc: &'static Location<'static>);
+  /// Replaces `thread::park` / `park_timeout`; must perform the real park.
+  fn park(&self, timeout: Option<Duration>, loc: &'static Location<'static>);
+  /// `target` is about to be unparked (the real unpark follows).
+  fn unpark(&self, target: ThreadId);
+  /// Should this `compare_exchange_weak` fail spuriously?
+  fn weak_cas_fails(&self) -> bool;
+}
+
+thread_local! {
+  static CURRENT: RefCell<Option<Arc<dyn Controller>>> = const { RefCell::new(None) };
+}
+static GLOBAL: RwLock<Option<Arc<dyn Controller>>> = RwLock::new(None);
+static CLOCK_OFFSET_NANOS: AtomicU64 = AtomicU64::new(0);
+
+/// Makes the calling thread a managed thread of `ctrl`.
+pub fn enter(ctrl: Arc<dyn Controller>) {
+  CURRENT.with(|c| *c.borrow_mut() = Some(ctrl));
+}
+
+/// Makes the calling thread unmanaged again.
+pub fn leave() {
+  CURRENT.with(|c| *c.borrow_mut() = None);
+}
+
+/// Installs (or clears) the controller that is told about unparks performed by
+/// unmanaged threads.
+pub fn set_global(ctrl: Option<Arc<dyn Controller>>) {
+  *GLOBAL.write().unwrap() = ctrl;
+}
+
+#[inline]
+fn current() -> Option<Arc<dyn Controller>> {
+  CURRENT.try_with(|c| c.try_borrow().ok().and_then(|c| c.clone())).ok().flatten()
+}
+
+#[inline]
+pub fn is_managed() -> bool {
+  CURRENT.try_with(|c| c.try_borrow().map(|c| c.is_some()).unwrap_or(false)).unwrap_or(false)
+}
+
+#[inline]
+#[track_caller]
+pub fn point(kind: &'static str, addr: usize) {
+  if let Some(c) = current() {
+    c.point(kind, Location::caller(), addr);
+  }
+}
+
+#[inline]
+pub fn event(site: &'static str, a: u64, b: u64) {
+  if let Some(c) = current() {
+    c.event(site, a, b);
+  }
+}
+
+#[inline]
+#[track_caller]
+pub fn spin() {
+  if let Some(c) = current() {
+    c.spin(Location::caller());
+  }
+}
+
+/// Returns true when the controller performed the park.
+#[inline]
+#[track_caller]
+pub fn park(timeout: Option<Duration>) -> bool {
+  if let Some(c) = current() {
+    c.park(timeout, Location::caller());
+    true
+  } else {
+    false
+  }
+}
+
+#[inline]
+pub fn on_unpark(target: ThreadId) {
+  if let Some(c) = current() {
+    c.unpark(target);
+  } else if let Ok(g) = GLOBAL.read() {
+    if let Some(c) = g.as_ref() {
+      c.unpark(target);
+    }
+  }
+}
+
+#[inline]
+pub fn weak_cas_fails() -> bool {
+  match current() {
+    Some(c) => c.weak_cas_fails(),
+    None => false,
+  }
+}
+
+/// Virtual clock offset (added by time sources that opt in).
+#[inline]
+pub fn clock_offset_nanos() -> u64 {
+  CLOCK_OFFSET_NANOS.load(Ordering::SeqCst)
+}
+
+pub fn set_clock_offset_nanos(v: u64) {
+  CLOCK_OFFSET_NANOS.store(v, Ordering::SeqCst);
+}
+
+pub fn advance_clock_nanos(d: u64) -> u64 {
+  CLOCK_OFFSET_NANOS.fetch_add(d, Ordering::SeqCst) + d
+}
